@@ -20,6 +20,7 @@ SUBS = [
     dict(name="pool", quick=dict(cases=6, shards=3), thorough=dict(cases=200, shards=4)),
     dict(name="netbuf", quick=dict(cases=30, shards=2), thorough=dict(cases=1200, shards=2)),
     dict(name="addr", quick=dict(cases=40, shards=1), thorough=dict(cases=1200, shards=1)),
+    dict(name="aes", quick=dict(cases=40, shards=1), thorough=dict(cases=1200, shards=2)),
     dict(name="http", quick=dict(cases=12, shards=2), thorough=dict(cases=24, shards=2)),
 ]
 WRAPS = ["poll", "recv", "send", "connect", "accept", "getsockopt", "setsockopt", "socket", "close", "bind", "fcntl",
@@ -31,11 +32,12 @@ def build(B):
     need = {"events.c", "events_immediate.c", "events_network.c", "events_network_selectstats.c", "events_timer.c",
             "timerqueue.c", "ptrheap.c", "elasticarray.c", "elasticqueue.c", "seqptrmap.c", "warnp.c", "network_read.c",
             "network_write.c", "network_connect.c", "network_accept.c", "netbuf_read.c", "netbuf_write.c", "http.c", "sock.c",
-            "sock_util.c", "asprintf.c", "noeintr.c", "humansize.c"}
+            "sock_util.c", "asprintf.c", "noeintr.c", "humansize.c", "crypto_aes.c", "crypto_aes_aesni.c", "crypto_aesctr.c", "crypto_aesctr_aesni.c",
+            "cpusupport_x86_aesni.c", "insecure_memzero.c"}
     objs = [lib[k] for k in sorted(need) if k in lib]
     shim = B.compile_c(os.path.join(HERE, "shim.c"))
     core = B.compile_cxx(os.path.join(HERE, "core.cpp"))
-    return B.link(os.path.join(B.BUILD, "bin", "C14"), [core, shim] + objs, libs=["-lrapidcheck"], wraps=WRAPS)
+    return B.link(os.path.join(B.BUILD, "bin", "C14"), [core, shim] + objs, libs=["-lrapidcheck", "-lcrypto"], wraps=WRAPS)
 
 
 MANIFEST = dict(
